@@ -261,8 +261,7 @@ def main():
     for _ in range(max(2, n // 3)):
         cases.append(("storm", rng.next()))
     fn = {"hold": hold_case, "storm": storm_case, "overlap": overlap_case}
-    with ThreadPoolExecutor(max_workers=6) as ex:
-        list(ex.map(lambda c: fn[c[0]](c[1], model, rep), cases))
+    scen.run_cases(lambda c: fn[c[0]](c[1], model, rep), cases, rep, 6)
     scen.finish(args, rep, t0, model)
 
 
